@@ -55,8 +55,9 @@ for variant in ("with", "without"):
         rc, out = sh(f"go test {tagflag} -vet=off -count=1 -timeout 600s ./{dest}/ -run '{runre}' 2>&1 | tail -15", cwd=wt, timeout=1200)
         ok = ("ok " in out or "ok\t" in out) and "FAIL" not in out
     else:
-        rc, out = sh(f"go run {tagflag} ./{dest}/ 2>&1 | tail -15", cwd=wt, timeout=900)
-        ok = rc == 0 and "FAIL" not in out and "panic" not in out
+        rc, out = sh(f"go run {tagflag} ./{dest}/ 2>&1", cwd=wt, timeout=900)
+        ok = rc == 0 and "FAIL" not in out and "panic" not in out and "fatal error" not in out
+        out = "\n".join(out.splitlines()[-15:])
     res["demo_" + variant] = "PASS" if ok else "FAIL"
     res["demo_" + variant + "_tail"] = out[-600:]
     sh(f"git -C /repo worktree remove --force {wt}")
